@@ -158,10 +158,11 @@ class C09Copy(Equation):
 # --------------------------------------------------------------------------
 # C. system-level oracle on the real compiled code
 
-H_STYLES = 5
+H_STYLES = 6
+H_RATIOS = [1.0, 2.0, 3.5, 5.0, 8.0]      # largest h of one array / largest h of another
 
 
-def gen_array(rng, dim, n, dx, style, a=0):
+def gen_array(rng, dim, n, dx, style, a=0, ratios=None):
     """one random particle array as a dict of numpy arrays"""
     d = {}
     d['x'] = rng.uniform(0, 1, n)
@@ -175,8 +176,12 @@ def gen_array(rng, dim, n, dx, style, a=0):
         d['h'] = dx * rng.choice([0.8, 1.2, 2.0], n)   # strongly varying h
     elif style == 3:
         d['h'] = dx * 0.6 * 4.0 ** rng.uniform(0, 1, n)    # log-uniform over a ratio of 4
-    else:
+    elif style == 4:
         d['h'] = dx * [0.7, 1.5, 1.0][a % 3] * rng.uniform(1.0, 1.15, n)   # one resolution per array
+    else:
+        # arrays of very different resolution (a fine fluid and a few coarse
+        # particles / a coarse boundary): ratios[a] times the fine h
+        d['h'] = dx * (ratios[a] if ratios else 1.0) * rng.uniform(1.0, 1.15, n)
     for p, (lo, hi) in RANDOM_PROPS.items():
         d[p] = rng.uniform(lo, hi, n)
     if dim < 3:
@@ -189,20 +194,22 @@ def gen_array(rng, dim, n, dx, style, a=0):
     return d
 
 
-def gen_system(seed, dim, sizes, wdeltap, hstyle=None, hscale=1.0):
+def gen_system(seed, dim, sizes, wdeltap, hstyle=None, hscale=1.0, hratios=None):
     """random closed system as plain dicts (JSON-able)"""
     rng = np.random.RandomState(seed % (2 ** 31))
     ntot = sum(sizes)
+    if hratios:
+        ntot = max(sizes)          # the spacing of the fine array
     dx = hscale / ntot ** (1.0 / dim)
     style = rng.randint(0, 3)
     if hstyle is not None:
         style = hstyle
     arrs = []
     for a, n in enumerate(sizes):
-        d = gen_array(rng, dim, n, dx, style, a)
+        d = gen_array(rng, dim, n, dx, style, a, hratios)
         arrs.append({k: [float(x) for x in v] for k, v in d.items()})
     return {'dim': dim, 'arrays': arrs, 'wdeltap': wdeltap, 'n_exp': 4.0,
-            'dx': dx, 'hstyle': int(style)}
+            'dx': dx, 'hstyle': int(style), 'hratios': hratios}
 
 
 def build_arrays(system, neq):
@@ -215,6 +222,8 @@ def build_arrays(system, neq):
             if p in d:
                 pa.get_carray(p).get_npy_array()[:] = d[p]
         pa.add_property('c09acc', stride=7 * neq)
+        pa.add_property('c09id')      # which real particle an image is an image of
+        pa.get_carray('c09id').get_npy_array()[:] = np.arange(pa.get_number_of_particles())
         pa.add_constant('wdeltap', system['wdeltap'])
         pa.add_constant('n', system['n_exp'])
         pas.append(pa)
@@ -274,9 +283,12 @@ def measure(pas, family):
     return out
 
 
-def judge(label, tag, m):
-    """the property statement; returns list of (what, demand, observed)"""
+def judge(label, tag, m, periodic=False):
+    """the property statement; returns list of (what, demand, observed).  In a
+    periodic box (a torus) the sums are over the real particles, the images
+    being part of the closed system, and there is no angular momentum."""
     _, f, cname, kind, central = TAGINFO[tag]
+    central = central and not periodic
     bad = []
     if kind == 'density':
         if not (m['rhomin'] > 0):
@@ -391,7 +403,7 @@ def apply_op(system, pas, o):
     """one population / state change on the live particle arrays"""
     pa = pas[o['arr']]
     rng = np.random.RandomState(o['seed'])
-    n = pa.get_number_of_particles()
+    n = pa.get_number_of_particles(real=True)     # images (if any) follow the real ones
     dim = system['dim']
     if o['op'] == 'noop':
         return
@@ -407,20 +419,90 @@ def apply_op(system, pas, o):
             idx = rng.choice(n, k, replace=False)
         pa.remove_particles(np.asarray(idx, dtype=int))
     elif o['op'] == 'add':
-        d = gen_array(rng, dim, o['n'], system['dx'], system['hstyle'], o['arr'])
+        d = gen_array(rng, dim, o['n'], system['dx'], system['hstyle'], o['arr'],
+                      system.get('hratios'))
         pa.add_particles(**d)
     elif o['op'] == 'move':
         dx = system['dx']
         for c in ('x', 'y', 'z')[:dim]:
-            v = pa.get_carray(c).get_npy_array()
+            v = pa.get_carray(c).get_npy_array()[:n]
             v += rng.uniform(-0.7, 0.7, n) * dx
-        h = pa.get_carray('h').get_npy_array()
+        h = pa.get_carray('h').get_npy_array()[:n]
         if system['hstyle'] != 1:
             h *= rng.choice([1.0, 1.0, 0.8, 1.3], n)
         else:
             h *= rng.choice([0.8, 1.3])
     else:
         raise ValueError('unknown history operation %r' % (o,))
+
+
+BOX = 1.0       # the periodic box is [0, BOX] on every periodic axis
+
+
+def nbr_asymmetry(nnps, pas, k):
+    """mechanism 1 of the property on the real search with a domain manager:
+    whenever real particle i has (an image of) particle j as an interacting
+    neighbour (r < k*(h_i + h_j)/2, where the kernel gradient is non-zero), j
+    has (an image of) i as one, equally often.  Images are traced back to the
+    real particle through the copied property c09id.  Returns None or a
+    description of the first unmatched pair."""
+    from cyarray.api import UIntArray
+    narr = len(pas)
+    nbrs = UIntArray()
+    nreal = [pa.get_number_of_particles(real=True) for pa in pas]
+    dat = []
+    for pa in pas:
+        x, y, z, h, oid = pa.get('x', 'y', 'z', 'h', 'c09id', only_real_particles=False)
+        dat.append((np.c_[x, y, z], h, np.asarray(oid, dtype=np.int64)))
+    seen = {}
+    npair = 0
+    for d in range(narr):
+        Xd, hd, _ = dat[d]
+        for s_ in range(narr):
+            Xs, hs, ids = dat[s_]
+            I, J = [], []
+            for i in range(nreal[d]):
+                nnps.get_nearest_particles(s_, d, i, nbrs)
+                j = np.array(nbrs.get_npy_array(), dtype=np.int64)
+                I.append(np.full(len(j), i, dtype=np.int64))
+                J.append(j)
+            I = np.concatenate(I) if I else np.zeros(0, dtype=np.int64)
+            J = np.concatenate(J) if J else np.zeros(0, dtype=np.int64)
+            if len(J) and (J.max() >= len(hs)):
+                return {'what': 'neighbour index %d of array %d out of range %d' % (J.max(), s_, len(hs))}
+            r = np.sqrt(((Xd[I] - Xs[J]) ** 2).sum(axis=1))
+            keep = r < k * 0.5 * (hd[I] + hs[J]) * (1 - 1e-9)
+            code = I[keep] * max(nreal[s_], 1) + ids[J[keep]]
+            u, c = np.unique(code, return_counts=True)
+            seen[(d, s_)] = (u, c)
+            npair += int(keep.sum())
+    for d in range(narr):
+        for s_ in range(d, narr):
+            u, c = seen[(d, s_)]
+            v, e = seen[(s_, d)]
+            # (j, i) of the reverse direction as (i, j)
+            jj, ii = v // max(nreal[d], 1), v % max(nreal[d], 1)
+            w = ii * max(nreal[s_], 1) + jj
+            o = np.argsort(w)
+            w, e = w[o], e[o]
+            if len(u) == len(w) and (u == w).all() and (c == e).all():
+                continue
+            fw = dict(zip(u.tolist(), c.tolist()))
+            bw = dict(zip(w.tolist(), e.tolist()))
+            nbad = 0
+            ex = None
+            for key in set(fw) | set(bw):
+                if fw.get(key, 0) != bw.get(key, 0):
+                    nbad += 1
+                    if ex is None:
+                        ex = key
+            i, j = ex // max(nreal[s_], 1), ex % max(nreal[s_], 1)
+            return {'what': 'particle %d of array %d has (images of) particle %d of array %d as interacting '
+                            'neighbour %d time(s), the reverse holds %d time(s); %d such pairs of %d' % (
+                                i, d, j, s_, fw.get(ex, 0), bw.get(ex, 0), nbad, npair),
+                    'h': [float(dat[d][1][i]), float(dat[s_][1][j])],
+                    'xi': [float(t) for t in dat[d][0][i]], 'xj': [float(t) for t in dat[s_][0][j]]}
+    return None
 
 
 class Staged(Exception):
@@ -436,7 +518,8 @@ def run_config(ae_cache, family, kname, cfg):
     from pysph.base import nnps as NN
     dim = cfg['dim']
     system = cfg.get('system') or gen_system(cfg['seed'], dim, cfg['sizes'], cfg['wdeltap'],
-                                             cfg.get('hstyle'), cfg.get('hscale', 1.0))
+                                             cfg.get('hstyle'), cfg.get('hscale', 1.0),
+                                             cfg.get('hratios'))
     try:
         pas = build_arrays(system, len(FAMILIES[family]))
         kernel = getattr(KM, kname)(dim=dim)
@@ -460,29 +543,92 @@ def run_config(ae_cache, family, kname, cfg):
         kw['radius_scale'] = kernel.radius_scale      # what Application / SPHEvaluator pass
     kw.update(cfg.get('knobs') or {})
     rounds = []
+    dom = cfg.get('domain')
+    k_nn = kw.get('radius_scale', 2.0)
+
+    def in_scope():
+        # one image per side is all a DomainManager makes: the search radius
+        # must not exceed the period
+        if not dom:
+            return True
+        hmax = max([float(pa.get('h').max()) for pa in pas if pa.get_number_of_particles(real=True)] or [0.0])
+        return k_nn * hmax <= 0.98 * BOX
+
+    def hmaxs():
+        # what _compute_cell_size_for_binning reads: h.maximum of each whole
+        # array (images of the previous round included), before the update
+        if not dom or any(pa.get_number_of_particles() == 0 for pa in pas):
+            return None
+        return [float(pa.get('h', only_real_particles=False).max()) for pa in pas]
+
+    def ghost_tie(hm):
+        """input line for Model/PeriodicGhosts and what the real manager made"""
+        out = []
+        if hm is None or sum(pa.get_number_of_particles(real=True) for pa in pas) > 3000:
+            return out
+        per = list(dom['periodic']) + [False] * 3
+        per = [bool(per[0]), bool(per[1]) and dim > 1, bool(per[2]) and dim > 2]
+        for a, pa in enumerate(pas):
+            nr = pa.get_number_of_particles(real=True)
+            x, y, z, oid = pa.get('x', 'y', 'z', 'c09id', only_real_particles=False)
+            line = 'ghosts box=%s per=%s par=%s hmax=%s x=%s y=%s z=%s' % (
+                H.flist([0.0, BOX, 0.0, BOX, 0.0, BOX]), ','.join('1' if b else '0' for b in per),
+                H.flist([float(dom['n_layers']), k_nn]), H.flist(hm),
+                H.flist(x[:nr]), H.flist(y[:nr]), H.flist(z[:nr]))
+            made = sorted((int(oid[i]), H.fbits(x[i]), H.fbits(y[i]), H.fbits(z[i]))
+                          for i in range(nr, len(x)))
+            out.append({'line': line, 'made': made, 'arr': a, 'nreal': nr})
+        return out
+
+    def observe(hm=None):
+        m = measure(pas, family)
+        if dom:
+            m['_gt'] = ghost_tie(hm)
+        if dom and not (cfg.get('knobs') or {}).get('asymmetric'):
+            m['_nbr'] = nbr_asymmetry(nnps, pas, min(k_nn, kernel.radius_scale))
+        if dom:
+            m['_ghosts'] = [pa.get_number_of_particles() - pa.get_number_of_particles(real=True)
+                            for pa in pas]
+        return m
+
+    if not in_scope():
+        raise Staged('harness', ValueError('generator: search radius exceeds the period in round 0'))
     try:
+        if dom:
+            per = list(dom['periodic']) + [False] * 3
+            kw['domain'] = NN.DomainManager(
+                xmin=0.0, xmax=BOX, ymin=0.0, ymax=BOX, zmin=0.0, zmax=BOX,
+                periodic_in_x=bool(per[0]), periodic_in_y=bool(per[1]) and dim > 1,
+                periodic_in_z=bool(per[2]) and dim > 2, n_layers=float(dom['n_layers']))
+        hm = hmaxs()
         nnps = getattr(NN, cfg['nnps'])(dim=dim, particles=pas, **kw)
         nnps.update()
         ae.set_nnps(nnps)
         ae.compute(0.0, 0.1)
+        rounds.append(observe(hm))
     except Exception as e:      # noqa
         raise Staged('round-0', e)
-    rounds.append(measure(pas, family))
     for r, o in enumerate(cfg.get('history') or []):
         try:
             apply_op(system, pas, o)
+            if not in_scope():
+                break               # (a 'move' grew h beyond what one image per side covers)
+            for pa in pas:
+                n = pa.get_number_of_particles()
+                pa.get_carray('c09id').get_npy_array()[:] = np.arange(n)
             if cfg.get('sort_gids') and o['op'] == 'add':
                 off = 0
                 for pa in pas:
                     n = pa.get_number_of_particles()
                     pa.get_carray('gid').get_npy_array()[:] = np.arange(off, off + n)[::-1]
                     off += n
+            hm = hmaxs()
             nnps.update_domain()
             nnps.update()
             ae.compute(0.0, 0.1)
+            rounds.append(observe(hm))
         except Exception as e:      # noqa
             raise Staged('round-%d' % (r + 1), e)
-        rounds.append(measure(pas, family))
     return rounds, system
 
 
@@ -588,10 +734,18 @@ def run_one(family, kname, cfg):
         return [{'family': family, 'kernel': kname, 'cfg': cfg, 'stage': 'harness',
                  'error': '%s: %s' % (type(e).__name__, traceback.format_exc()[-600:])}]
     recs = []
+    periodic = bool(cfg.get('domain'))
+    first = True
     for label, tag, kw in FAMILIES[family]:
         bad, worst = [], None
         for r, meas in enumerate(rounds):
-            b = judge(label, tag, meas[label])
+            b = judge(label, tag, meas[label], periodic)
+            if first and meas.get('_nbr'):
+                # the neighbour relation itself (reported once per configuration)
+                b = b + [('neighbour-asymmetry',
+                          'i has (an image of) j as interacting neighbour exactly as often as j has '
+                          '(an image of) i (real + periodic-image particles, ghosts per array %s)' %
+                          meas.get('_ghosts'), json.dumps(meas['_nbr']))]
             if b and not bad:
                 bad = [(what, 'round %d: %s' % (r, demand), observed) for what, demand, observed in b]
                 worst = dict(meas[label], round=r)
@@ -601,7 +755,13 @@ def run_one(family, kname, cfg):
                'tag': tag, 'm': m, 'bad': bad, 'rounds': len(rounds)}
         if bad:
             rec['system'] = system
+        if periodic and first:
+            rec['ghost_tie'] = [dict(g, round=r) for r, m_ in enumerate(rounds) for g in m_.get('_gt') or []]
+        if periodic:
+            rec['ghosts'] = [m_.get('_ghosts') for m_ in rounds]
+            rec['planned_rounds'] = 1 + len(cfg.get('history') or [])
         recs.append(rec)
+        first = False
     return recs
 
 
@@ -837,6 +997,80 @@ def plan_nn(rng, tier, slots, narr_of, wide=False):
     return out
 
 
+N_LAYERS = [2.0, 1.0, 3.0, 1.5]
+
+
+def plan_domain(rng, tier, slots, wide=False):
+    """the domain-manager layer: a periodic box (1-3 periodic axes, every
+    n_layers value) x every NNPS class (defaults and option values) x cache x
+    2-3 mutually interacting arrays whose resolutions differ by a ratio 1..8
+    (a fine fluid with a few coarse particles), or one array with strongly
+    varying h, through histories on the same NNPS / DomainManager objects.
+    The images are part of the closed system: sums over the real particles."""
+    variants = nn_variants(rng)
+    jobs = []
+    for cname in NNPS_MATRIX:
+        vs = [kn for c, kn in variants if c == cname and kn]
+        if tier == 'quick' and not wide:
+            jobs += [(cname, {}), (cname, {}), (cname, rng.choice(vs) if vs else {})]
+        else:
+            jobs += [(cname, {})] * 3 + [(cname, kn) for kn in vs] * 2
+    rng.shuffle(jobs)
+    multi = [s_ for s_ in slots if s_[2] >= 2]
+    single = [s_ for s_ in slots if s_[2] == 1]
+    rng.shuffle(multi)
+    rng.shuffle(single)
+    kinds = ['single', 'move', 'again', 'shrink-grow', 'random', 'grow-shrink', 'move',
+             'empty-refill', 'single', 'grow-grow', 'shrink-grow-more']
+    out = {s_: [] for s_ in slots}
+    for n, (cname, kn) in enumerate(jobs):
+        if multi and (n % 5 != 4 or not single):
+            slot = multi[n % len(multi)]
+        else:
+            slot = single[n % len(single)]
+        fam, kname, narr = slot
+        dims = [d for d in (1, 2, 3) if _dim_ok(kname, d)]
+        d = rng.choice(dims + [x for x in dims if x == 2] * 2)
+        kernel_radius = rng.random() < 0.8
+        k = getattr(KM, kname)(dim=d).radius_scale if kernel_radius else 2.0
+        nf = int({1: 200, 2: 700, 3: 1100}[d] * rng.uniform(0.8, 1.3))
+        hscale = rng.choice([0.7, 1.0]) if d < 3 else 0.7
+        axes = [rng.random() < 0.6 for _ in range(d)]
+        if not any(axes):
+            axes[rng.randrange(d)] = True
+        cfg = {'dim': d, 'seed': rng.randrange(2 ** 30), 'nnps': cname, 'knobs': kn,
+               'cache': rng.random() < 0.5, 'fixed_h': False, 'sort_gids': rng.random() < 0.15,
+               'kernel_radius': kernel_radius, 'hscale': hscale,
+               'wdeltap': rng.choice([0.8, 1.7, -1.0]), 'layer': 'nnps',
+               'domain': {'periodic': axes + [False] * (3 - d),
+                          'n_layers': N_LAYERS[n % len(N_LAYERS)]}}
+        if narr == 1:
+            cfg['sizes'] = [nf]
+            cfg['hstyle'] = rng.choice([2, 3, 0])
+        else:
+            # largest supported ratio: the coarse search radius (with the
+            # growth one 'move' may cause) stays below the period
+            cap = 0.98 * BOX / (k * 1.15 * 1.3 * hscale / nf ** (1.0 / d))
+            allowed = [r_ for r_ in H_RATIOS if r_ <= cap]
+            if cap < H_RATIOS[-1]:
+                allowed.append(math.floor(cap * 10) / 10.0)
+            ratios = [1.0] + [rng.choice(allowed[1:] + allowed[-2:]) for _ in range(narr - 1)]
+            sizes = [max(5, min(nf, int(nf / r_ ** d * rng.uniform(1.0, 3.0)))) if r_ > 1.0 else nf
+                     for r_ in ratios]
+            if narr == 3 and rng.random() < 0.5:
+                sizes[2] = max(5, sizes[2] // 2)
+            o = list(range(narr))
+            rng.shuffle(o)
+            cfg['sizes'] = [sizes[i] for i in o]
+            cfg['hratios'] = [ratios[i] for i in o]
+            cfg['hstyle'] = 5
+        kind = kinds[n % len(kinds)]
+        cfg['hist_kind'] = kind
+        cfg['history'] = gen_history(rng, kind, cfg['sizes'])
+        out[slot].append(cfg)
+    return out
+
+
 def plan(seed, tier, wide=False):
     rng = random.Random(seed * 104729 + 9)
     tasks = []
@@ -870,7 +1104,9 @@ def plan(seed, tier, wide=False):
     # the neighbour-search layer shares the generated modules of the plan above
     rng2 = random.Random(seed * 7919 + 13 + (1 if wide else 0))
     extra = plan_nn(rng2, tier, [t[:3] for t in tasks], None, wide)
-    tasks = [(f, k, n, cfgs + extra[(f, k, n)]) for f, k, n, cfgs in tasks]
+    rng3 = random.Random(seed * 15485863 + 29 + (1 if wide else 0))
+    extra_d = plan_domain(rng3, tier, [t[:3] for t in tasks], wide)
+    tasks = [(f, k, n, cfgs + extra[(f, k, n)] + extra_d[(f, k, n)]) for f, k, n, cfgs in tasks]
     # the model tie of the neighbour cache: one task per NNPS class
     ncase = (6 if tier == 'quick' else 40) * (2 if wide else 1)
     for cname in NNPS_MATRIX:
@@ -903,6 +1139,8 @@ def fail_key(rec, what):
     cfg = rec['cfg']
     if cfg.get('layer') == 'nnps':
         k = 'C09:nnps:%s:%s' % (cfg['nnps'], what)
+        if cfg.get('domain'):
+            k += ':periodic'
         if cfg.get('cache'):
             k += ':cache'
         if cfg.get('history') and rec.get('m', {}).get('round', 1) > 0:
@@ -939,11 +1177,46 @@ def check_cache_tie(R, ties):
                        'neighbour-cache-history:%s' % cfg['nnps'])
 
 
+def check_ghost_tie(R, items):
+    """model `PeriodicGhosts.ghostsOfArray` (Float) vs the images the real
+    DomainManager appended, as sets of (real particle, x, y, z) bit for bit"""
+    if not items or not os.path.exists(H.vlib.driver_path('C09')):
+        return
+    out = H.run_model('C09', [g['line'] for cfg, g in items])
+    if len(out) != len(items):
+        raise SystemExit('model driver answered %d lines for %d' % (len(out), len(items)))
+    for (cfg, g), ans in zip(items, out):
+        toks = ans.split(' ')
+        model = None
+        if toks[0] == 'ok' and len(toks) == 3:
+            ids = [] if toks[1] == '_' else [int(t) for t in toks[1].split(',')]
+            fl = [] if toks[2] == '_' else toks[2].split(',')
+            if len(fl) == 3 * len(ids):
+                model = sorted((i, fl[3 * n], fl[3 * n + 1], fl[3 * n + 2]) for n, i in enumerate(ids))
+        made = [tuple(t) for t in g['made']]
+        R.case('ghost-tie:%s:%d:%d:%d' % (cfg['seed'], g['round'], g['arr'], len(made)),
+               len(made) > 0, None)
+        R.count('ghost-tie:arrays')
+        R.count('ghost-tie:images', len(made))
+        R.d['traces_validated_against_impl'] += 1
+        if model != made:
+            ex = None
+            if model is not None:
+                diff = sorted(set(model) ^ set(made))
+                ex = {'only-model' if diff[0] in set(model) else 'only-impl': diff[0],
+                      'differing': len(diff)} if diff else 'multiplicities differ'
+            R.disagree({'cfg': cfg, 'round': g['round'], 'array': g['arr'], 'nreal': g['nreal'],
+                        'first-difference': ex, 'line': g['line'][:600]},
+                       ans[:300] if model is None else '%d images' % len(model),
+                       '%d images' % len(made), 'periodic-ghosts:%s' % cfg['nnps'])
+
+
 def collect_system(R, runner):
     nfail = 0
     nsys = 0
     per_cfg = {}
     ties = []
+    gties = []
     for rec in runner.run():
         cfg = rec['cfg']
         layer = cfg.get('layer') == 'nnps'
@@ -969,6 +1242,8 @@ def collect_system(R, runner):
                         rec['error'])
             R.count('sysN:failed-run:' + what)
             continue
+        for g in rec.get('ghost_tie') or []:
+            gties.append((cfg, g))
         fp = json.dumps([rec['family'], rec['kernel'], cfg['dim'], cfg['sizes'],
                          cfg['seed'], cfg['nnps'], rec['label'], cfg.get('knobs'),
                          cfg.get('hist_kind')])
@@ -996,6 +1271,23 @@ def collect_system(R, runner):
                     R.count('sysN:cfg:%s:%s=%s' % (cfg['nnps'], k, v))
                 if not cfg.get('knobs'):
                     R.count('sysN:cfg:%s:defaults' % cfg['nnps'])
+                dom = cfg.get('domain')
+                if dom:
+                    R.count('domain:cfg')
+                    R.count('domain:nnps:' + cfg['nnps'])
+                    R.count('domain:periodic-axes:%d-of-%d' % (sum(map(bool, dom['periodic'])), cfg['dim']))
+                    R.count('domain:n_layers:%s' % dom['n_layers'])
+                    R.count('domain:narr:%d' % len(cfg['sizes']))
+                    hr = cfg.get('hratios')
+                    R.count('domain:h-ratio:%s' % ('one-array' if not hr else
+                                                   '>3' if max(hr) > 3 else '>1' if max(hr) > 1 else '1'))
+                    if hr and max(hr) > 2 * dom['n_layers'] - 1:
+                        R.count('domain:h-ratio-beyond-2*n_layers-1')
+                    R.count('domain:rounds-judged', rec['rounds'])
+                    R.count('domain:rounds-planned', rec.get('planned_rounds', rec['rounds']))
+                    g = rec.get('ghosts') or []
+                    if not any(x and sum(x) for x in g):
+                        R.count('domain:no-image-created')
         R.d['traces_validated_against_impl'] += rec['rounds']
         nsys += 1
         if not nontrivial:
@@ -1009,6 +1301,7 @@ def collect_system(R, runner):
                     'cfg': c, 'label': rec['label'], 'tag': rec['tag']}
             R.prop_fail(fail_key(rec, what), case, demand, observed)
     check_cache_tie(R, ties)
+    check_ghost_tie(R, gties)
     R.note('system-level oracle: %d generated modules, %d (configuration, equation) runs, '
            '%d crashed, %d timed out, %.0f s wall' % (
                runner.ntasks, nsys, runner.stats['crash'], runner.stats['timeout'],
@@ -1299,6 +1592,9 @@ def replay(R, rp):
         case['kernel'], cfg['dim'], cfg['sizes'], cfg['nnps'], cfg.get('knobs') or {},
         cfg['cache'], cfg.get('fixed_h', False), cfg.get('sort_gids', False),
         [(o['op'], o.get('n')) for o in cfg.get('history') or []]))
+    if cfg.get('domain'):
+        print('periodic box [0, %g] on axes %s, n_layers=%s, h ratios of the arrays %s' % (
+            BOX, cfg['domain']['periodic'], cfg['domain']['n_layers'], cfg.get('hratios')))
     # in a child: a crash or a hang of the implementation is an answer too
     runner = Runner([(case['family'], case['kernel'], len(cfg['sizes']), [cfg])], 1)
     recs = list(runner.run())
@@ -1338,7 +1634,15 @@ def corpus_tasks():
         dict(base, sizes=[300], seed=5, nnps='ZOrderNNPS', cache=True, hstyle=3,
              knobs={}, hist_kind='shrink-grow-more', history=hist(300, 100, 180)),
     ]
-    return [('wc', 'CubicSpline', 1, cfgs)]
+    # a periodic box with a fine and a coarse array (h ratio beyond
+    # 2*n_layers - 1): the image layer has to be sized by the global cell size
+    per = dict(base, sizes=[500, 14], seed=6, nnps='LinkedListNNPS', cache=False, hstyle=5,
+               hratios=[1.0, 5.0], knobs={}, hist_kind='single', history=[],
+               domain={'periodic': [True, True, False], 'n_layers': 2.0})
+    per2 = dict(per, seed=7, sizes=[9, 400], hratios=[4.0, 1.0], nnps='ZOrderNNPS', cache=True,
+                hist_kind='move', history=[{'op': 'move', 'arr': 1, 'seed': 13}],
+                domain={'periodic': [False, True, False], 'n_layers': 1.5})
+    return [('wc', 'CubicSpline', 1, cfgs), ('wc', 'CubicSpline', 2, [per, per2])]
 
 
 def merge_tasks(first, rest):
